@@ -43,7 +43,7 @@ Theorem unsigned_unread_components_irrelevant :
      q_attkey q = q_attkey q' -> q_qe_report q = q_qe_report q' -> q_qe_sig q = q_qe_sig q' ->
      q_auth q = q_auth q' -> q_cert_type q = q_cert_type q' -> q_cert_data q = q_cert_data q' ->
      verify_parsed P env pol ts q c = verify_parsed P env pol ts q' c).
-Proof. intros; split; [apply unread_components_irrelevant | apply verdict_frame]. Qed.
+Proof. exact unsigned_unread_components_irrelevant_l. Qed.
 Print Assumptions unsigned_unread_components_irrelevant.
 
 Theorem expired_never_accepted :
